@@ -57,7 +57,7 @@ func vcScenC08(t *vcTrial) {
 	cfg.Flushes = r.rng(1, 3)
 	cfg.Second = r.chance(40)
 	cfg.LocalClose = r.chance(15)
-	cfg.SndBuf = []int{4 << 10, 16 << 10, 64 << 10}[r.intn(3)]
+	cfg.SndBuf = []int{4 << 10, 16 << 10, 64 << 10, 1 << 20}[r.intn(4)]
 	switch r.intn(3) {
 	case 0:
 		cfg.Mode = vcModeJitter
@@ -320,6 +320,7 @@ func vcRunC08(t *vcTrial, cfg vc08Cfg) {
 			pan     interface{}
 		}
 		resCh := make(chan fres, 1)
+		var firstRet int64 // monotonic time at which the first Flush returned (0: still in progress)
 		started := make(chan struct{})
 		var callStart time.Time
 		go func() {
@@ -337,6 +338,7 @@ func vcRunC08(t *vcTrial, cfg vc08Cfg) {
 			callStart = time.Now()
 			close(started)
 			res.err = conn.Writer().Flush()
+			atomic.StoreInt64(&firstRet, vfNow())
 			res.retAt = time.Now()
 			res.elapsed = res.retAt.Sub(callStart)
 			res.outLen = inner.outputBuffer.Len()
@@ -346,6 +348,8 @@ func vcRunC08(t *vcTrial, cfg vc08Cfg) {
 		var secondErr error
 		secondDone := make(chan struct{})
 		secondOverlap := false
+		secondUsesWrite := r.chance(50)
+		thirdBad := ""
 		if cfg.Second {
 			go func() {
 				defer close(secondDone)
@@ -358,7 +362,33 @@ func vcRunC08(t *vcTrial, cfg vc08Cfg) {
 					return // the first call already returned: no overlap
 				}
 				secondOverlap = true
-				secondErr = conn.Writer().Flush()
+				if secondUsesWrite {
+					_, secondErr = conn.Write(nil) // zero-length: submits nothing even if it were admitted
+				} else {
+					secondErr = conn.Writer().Flush()
+				}
+				// only where the first call cannot end by a write timeout meanwhile: after a write timeout
+				// the connection must not be flushed again (the poller may still own the output buffer)
+				if !errors.Is(secondErr, ErrConcurrentAccess) || atomic.LoadInt64(&firstRet) != 0 || cfg.TimeoutKind != "none" {
+					return
+				}
+				// the first call is still in progress (it was parked and has not returned): a further call
+				// must be rejected as well - the rejected one may not have disturbed the first's lock
+				thirdCh := make(chan error, 1)
+				go func() { thirdCh <- conn.Writer().Flush() }()
+				select {
+				case e := <-thirdCh:
+					if !errors.Is(e, ErrConcurrentAccess) && !errors.Is(e, ErrConnClosed) {
+						time.Sleep(2 * time.Millisecond) // the first may be between its return and its timestamp
+						if atomic.LoadInt64(&firstRet) == 0 {
+							thirdBad = fmt.Sprintf("returned %v", e)
+						}
+					}
+				case <-time.After(2 * time.Second):
+					if atomic.LoadInt64(&firstRet) == 0 {
+						thirdBad = "was admitted and is blocked next to the first one"
+					}
+				}
 			}()
 		} else {
 			close(secondDone)
@@ -460,6 +490,9 @@ func vcRunC08(t *vcTrial, cfg vc08Cfg) {
 			}
 			firstErr = res.err
 			outcomes += "e"
+		}
+		if thirdBad != "" {
+			t.Violate("C08", "concurrent_flush_admitted", "while a Flush was parked in waitFlush a second call (Write=%v) was rejected with ErrConcurrentAccess, but a third Flush issued right after it %s: the rejected call disturbed the first one's lock", secondUsesWrite, thirdBad)
 		}
 		if secondOverlap {
 			// the second call started while the first was parked in waitFlush
